@@ -1,6 +1,7 @@
 import LdkModel.Driver.C06
 import LdkModel.Model.OnchainClaims
 import LdkModel.Model.CloseCfg
+import LdkModel.Model.ClaimTime
 namespace Ldk.Driver
 open Ldk Ldk.Onchain
 
@@ -42,11 +43,47 @@ def rawItemOf (s : String) : Option (Item × Nat) :=
 /-- balances, then the value handed out as SpendableOutputs so far -/
 def showLedger (l : Ledger) : String := s!"{showBalances l} | {spendableTotal l}"
 
-/-- ops:  close <height> <holderClose 0|1> <holder our_to_self_delay> <counterparty our_to_self_delay> <item>…
+/-- `kind:amount_msat:cltv` -/
+def preHtlcOf (s : String) : Option ClaimTime.PreHtlc :=
+  match splitOnChar s ':' with
+  | [k, v, c] => (kindOf k).map fun kind => { kind := kind, amountMsat := nat! v, cltv := nat! c }
+  | _ => none
+
+/-- the pre-confirmation view in the line format of `showBalances` (`O:0:<amount>` = ClaimableOnChannelClose) -/
+def showPreView (v : ClaimTime.PreView) : String :=
+  let ts := sortTriples ((4, 0, v.onClose) :: v.htlcs.map fun b => match b.cls with
+    | .awaitingConfirmations h => (0, h, b.sat)
+    | .contentious h => (1, h, b.sat)
+    | .maybeTimeout h => (2, h, b.sat)
+    | .maybePreimage h => (3, h, b.sat))
+  " ".intercalate (ts.map fun t =>
+    let tag := if t.1 == 0 then "A" else if t.1 == 1 then "C" else if t.1 == 2 then "T" else if t.1 == 3 then "P" else "O"
+    s!"{tag}:{t.2.1}:{t.2.2}")
+
+/-- `H` = holder HTLC-timeout (pre-signed, nLockTime = cltv), `S` = holder HTLC-success, `R` = timeout claim on the counterparty's
+    commitment (CounterpartyReceivedHTLCOutput), `F` = preimage claim on the counterparty's commitment (CounterpartyOfferedHTLCOutput) -/
+def claimInputOf (code : String) (cltv : Nat) : Option Pkg.PkgInput :=
+  if code == "H" then some (.holderHTLCOutput false cltv) else if code == "S" then some (.holderHTLCOutput true cltv)
+  else if code == "R" then some (.counterpartyReceivedHTLCOutput cltv) else if code == "F" then some (.counterpartyOfferedHTLCOutput cltv) else none
+
+def showNats' (xs : List Nat) : String := if xs.isEmpty then "-" else " ".intercalate (xs.map toString)
+
+def showOptNat : Option Nat → String
+  | some n => toString n
+  | none => "none"
+
+/-- ops:  close <height> <holderClose 0|1|2> <holder our_to_self_delay> <counterparty our_to_self_delay> <item>…
                                       → balances (sorted) `|` spendable so far          (Model/CloseCfg.lean `hclose`)
           claim <idx> <height> <net>  | peer <idx> <height> | block <height> [<scenario tag>]   → the same
           preimage <hashId> [<tag>]   → the same      (`HLedger.provide`: a preimage learned after the commitment confirmed)
-          totals                      → `<balances owned> <spendable> <fees> <lost> <entitlement>` -/
+          totals                      → `<balances owned> <spendable> <fees> <lost> <entitlement>`
+          (holderClose 2 = the COUNTERPARTY's PREVIOUS, not yet revoked commitment confirmed: `CloseCfg.counterpartyPrev`)
+          preclose <to_self sat> <kind:amount_msat:cltv>… [s<tag>]   → the pre-confirmation view (Model/ClaimTime.lean `preView`)
+          release <H|S|R|F> <cltv> <cur> [<tag>]          → height at which a claim requested at <cur> is first issued (`requestIssueHeight`)
+          sched <H|S|R|F> <cltv> <start> <fuel> [<tag>]   → the (re-)issue heights of a single-input claim (`issueHeights`, csh = cltv)
+          reissue <H|S|R|F> <cltv> <h> <next> [<tag>]     → `early` iff a claim issued at <h> was re-issued at <next>, before its timer `issueTimer` (else `not-early`)
+          goesany <start> <fuel> <cltv:outbound:preimage>… [s<tag>]  → height at which the monitor goes on chain with all these HTLCs pending (`firstOnchain`)
+          goes <cltv> <outbound 0|1> <preimage 0|1> <start> <fuel> [<tag>] → height at which the monitor goes on chain (`goesOnchainAt`) -/
 def c07close : Drv where
   σ := HLedger
   init := { cfg := default, ledger := { best := 0, entries := [] }, hashes := [] }
@@ -55,7 +92,7 @@ def c07close : Drv where
     match ws with
     | "close" :: h :: hc :: hs :: cs :: items =>
       match items.mapM rawItemOf with
-      | some is => let hl' := hclose { holderClose := hc == "1", holderSelected := nat! hs, counterpartySelected := nat! cs } (nat! h) is; (hl', showLedger hl'.ledger)
+      | some is => let hl' := hclose { holderClose := hc == "1", holderSelected := nat! hs, counterpartySelected := nat! cs, counterpartyPrev := hc == "2" } (nat! h) is; (hl', showLedger hl'.ledger)
       | none => (hl, "bad-op")
     | ["claim", i, h, net] => viaOp (.claim (nat! i) (nat! h) (nat! net))
     | ["peer", i, h] => viaOp (.peerClaim (nat! i) (nat! h))
@@ -64,6 +101,31 @@ def c07close : Drv where
     | ["preimage", hid] => let hl' := hl.step (.provide (nat! hid)); (hl', showLedger hl'.ledger)
     | ["preimage", hid, _tag] => let hl' := hl.step (.provide (nat! hid)); (hl', showLedger hl'.ledger)
     | ["totals"] => let l := hl.ledger; (hl, s!"{balanceTotal l} {spendableTotal l} {feesTotal l} {lostTotal l} {entitlement l}")
+    | "preclose" :: t :: hs =>
+      match (hs.filter fun x => !x.startsWith "s").mapM preHtlcOf with
+      | some ps => (hl, showPreView (ClaimTime.preView (nat! t) ps))
+      | none => (hl, "bad-op")
+    | "release" :: code :: cltv :: cur :: _ =>
+      match claimInputOf code (nat! cltv) with
+      | some i => (hl, showOptNat (ClaimTime.requestIssueHeight (nat! cur) [i] 5000))
+      | none => (hl, "bad-op")
+    | "sched" :: code :: cltv :: start :: fuel :: _ =>
+      match claimInputOf code (nat! cltv) with
+      | some i => (hl, showNats' (ClaimTime.issueHeights (nat! cltv) [i] (nat! fuel) (nat! start) (nat! start)))
+      | none => (hl, "bad-op")
+    | "reissue" :: code :: cltv :: h :: next :: _ =>
+      match claimInputOf code (nat! cltv) with
+      | some i => (hl, if nat! next < ClaimTiming.issueTimer (nat! h) (nat! cltv) [i] then "early" else "not-early")
+      | none => (hl, "bad-op")
+    | "goesany" :: start :: fuel :: hs =>
+      let parse := fun (t : String) => match splitOnChar t ':' with
+        | [c, o, p] => some ((nat! c, o == "1", p == "1") : ClaimTime.ScanHtlc)
+        | _ => none
+      match (hs.filter fun x => !x.startsWith "s").mapM parse with
+      | some xs => (hl, showOptNat (ClaimTime.firstOnchain xs (nat! start) (nat! fuel)))
+      | none => (hl, "bad-op")
+    | "goes" :: cltv :: outb :: pre :: start :: fuel :: _ =>
+      (hl, showOptNat (ClaimTime.goesOnchainAt (nat! cltv) (outb == "1") (pre == "1") (nat! start) (nat! fuel)))
     | _ => (hl, "bad-op")
 
 /-! ### c07fee: target feerates / fee-bump trajectories (Generated/Package.lean `computePackageFeerate`,
